@@ -59,17 +59,18 @@ def check_case(case, ctr):
         ctr['hit_two_concepts'] += 1
     if any(len(x) > 1 for x in olabs + plabs):
         ctr['hit_multi_label'] += 1
-    for cbname, cb in CALLBACKS:
+    runs = [(n, c, c) for n, c in CALLBACKS]
+    # repeated drawings of the SAME lattice with one callback changed at a time
+    runs += [('comma/tag', CALLBACKS[1][1], CALLBACKS[2][1]),
+             ('comma/comma', CALLBACKS[1][1], CALLBACKS[1][1]),
+             ('tag/comma', CALLBACKS[2][1], CALLBACKS[1][1])]
+    for cbname, cb, cbp in runs:
         seen_args = []
         if cb is None:
             dot = lat.graphviz()
             fo = fp = ' '.join
         else:
-            def fo(names, cb=cb):
-                seen_args.append(tuple(names))
-                return cb(names)
-            fp = fo
-            dot = lat.graphviz(make_object_label=fo, make_property_label=fp)
+            dot = lat.graphviz(make_object_label=cb, make_property_label=cbp)
         ctr['calls'] += 1
         try:
             stmts = [dotparse.parse_statement(l) for l in dot.body]
@@ -91,7 +92,7 @@ def check_case(case, ctr):
         loops = [s for s in stmts if s[0] == 'edge' and s[1] == s[2]]
         exp_head = sorted((name[i], (fo if cb is None else cb)(case.olab(olabs[i])))
                           for i in range(k) if olabs[i])
-        exp_tail = sorted((name[i], (fp if cb is None else cb)(case.plab(plabs[i])))
+        exp_tail = sorted((name[i], (fp if cb is None else cbp)(case.plab(plabs[i])))
                           for i in range(k) if plabs[i])
         got_head = sorted((s[1], s[3]['headlabel']) for s in loops if 'headlabel' in s[3])
         got_tail = sorted((s[1], s[3]['taillabel']) for s in loops if 'taillabel' in s[3])
@@ -101,10 +102,15 @@ def check_case(case, ctr):
             bad('property-labels', exp_tail, got_tail, callback=cbname)
         if any('headlabel' not in s[3] and 'taillabel' not in s[3] for s in loops):
             bad('unlabelled-self-loop', None, [s[1] for s in loops], callback=cbname)
-        if cb is not None:
-            exp_args = sorted([case.olab(x) for x in olabs if x] + [case.plab(x) for x in plabs if x])
-            if sorted(seen_args) != exp_args:
-                bad('callback-input', exp_args, sorted(seen_args), callback=cbname)
+        if cb is not None and cbname == 'tag':
+            # what the callbacks are called with: exactly those names
+            rec = []
+            lat.graphviz(make_object_label=lambda t: rec.append(('o', tuple(t))) or 'x',
+                         make_property_label=lambda t: rec.append(('p', tuple(t))) or 'y')
+            exp_args = sorted([('o', case.olab(x)) for x in olabs if x]
+                              + [('p', case.plab(x)) for x in plabs if x])
+            if sorted(rec) != exp_args:
+                bad('callback-input', exp_args, sorted(rec), callback=cbname)
     return V
 
 
